@@ -17,7 +17,11 @@ PINS = {
   "torf/_stream.py:TorrentFileStream._iter_from_file_handle",
   "torf/_stream.py:TorrentFileStream._read_from_fh",
   "torf/_stream.py:TorrentFileStream._get_open_file",
-  "torf/_stream.py:TorrentFileStream._get_file_size_from_fs"
+  "torf/_stream.py:TorrentFileStream._get_file_size_from_fs",
+  "torf/_generate.py:Worker",
+  "torf/_generate.py:Reader",
+  "torf/_generate.py:HasherPool",
+  "torf/_generate.py:Collector"
  ],
  "C10": [
   "torf/_stream.py:TorrentFileStream.iter_pieces",
